@@ -50,12 +50,10 @@ theorem drainReleases_active : ∀ (q : List Queued) (np : Nat) (achs : List Act
       simp only [he] at h
       split at h
       · cases h
-      · split at h
-        · cases h
-        · rename_i k1 a1 d1 hr
-          cases h
-          have := ih _ _ _ _ _ _ hr
-          simp only [this, applyReleases, List.foldl_cons, he]
+      · rename_i k1 a1 d1 hr
+        cases h
+        have := ih _ _ _ _ _ _ hr
+        simp only [this, applyReleases, List.foldl_cons, he]
     | release c =>
       simp only [he] at h
       have hstep : applyReleases (qd :: rest) achs = applyReleases rest (releaseKeyInActive achs c.2) := by
@@ -239,7 +237,7 @@ theorem clearReleased_ok : ∀ (achs : List ActiveChord) (dq : List Queued) (r :
       · rename_i dq1 hp
         obtain ⟨h1, h2⟩ := ih _ _ _ h
         have hp' : dq1 = dq ++ [⟨.release (0, a.coordinate), 0⟩] := by
-          unfold smolPushAssert at hp
+          unfold drainPushAssert at hp
           split at hp
           · cases hp; rfl
           · cases hp
@@ -357,5 +355,81 @@ theorem foldl_smolPush_fits : ∀ (q dq : List Queued), dq.length + q.length ≤
     simp only [List.foldl_cons]
     rw [smolPush_fits dq x (by omega), ih _ (by simp; omega)]
     simp
+
+
+/-- `drainPush` appends while the 48 slots are not full -/
+theorem drainPush_fits (q : List Queued) (x : Queued) (h : q.length < DRAIN_Q_LEN) : drainPush q x = q ++ [x] := by
+  unfold drainPush pushBackWrap
+  simp only [h, if_true]
+
+/-- `extend` hands over everything when there is room for it -/
+theorem drainExtend_fits (dq q : List Queued) (h : dq.length + q.length ≤ DRAIN_Q_LEN) : drainExtend dq q = dq ++ q := by
+  unfold drainExtend
+  rw [List.take_of_length_le (by omega)]
+
+/-! ## After the repair of the two press lists (their overflow is ignored, no `debug_assert`) -/
+
+theorem drainReleases_no_err : ∀ (q : List Queued) (np : Nat) (achs : List ActiveChord) (dq : List Queued) (c : Crash),
+    drainReleases q np achs dq ≠ .error c := by
+  intro q
+  induction q with
+  | nil => intro np achs dq c h; cases h
+  | cons qd rest ih =>
+    intro np achs dq c h
+    simp only [drainReleases] at h
+    split at h
+    · split at h
+      · rename_i c' he; exact ih _ _ _ _ he
+      · cases h
+    · split at h
+      · exact ih _ _ _ _ h
+      · split at h
+        · rename_i c' he; exact ih _ _ _ _ he
+        · cases h
+
+theorem collectPresses_no_err : ∀ (q : List Queued) (ps : List Nat) (c : Crash), collectPresses q ps ≠ .error c := by
+  intro q
+  induction q with
+  | nil => intro ps c h; cases h
+  | cons qd rest ih =>
+    intro ps c h
+    simp only [collectPresses] at h
+    split at h
+    · split at h
+      · exact ih _ _ h
+      · exact ih _ _ h
+    · split at h
+      · cases h
+      · exact ih _ _ h
+
+theorem processPresses_no_err (s : ChV2) (layer : Nat) (c : Crash) : processPresses s layer ≠ .error c := by
+  intro h
+  unfold processPresses at h
+  split at h
+  · rename_i c' he; exact collectPresses_no_err _ _ _ he
+  · split at h
+    · cases h
+    · split at h
+      · cases h
+      · simp only [] at h
+        split at h
+        · rename_i c' he; exact absurd he (ppLoop_no_err _ _ _ _ _ _ _ _)
+        · cases h
+
+theorem drainInputs_err_dq (s : ChV2) (dq : List Queued) (layer : Nat) (c : Crash) (h : drainInputs s dq layer = .error c) :
+    c = crashDQ := by
+  unfold drainInputs at h
+  split at h
+  · cases h
+  · split at h
+    · cases h
+    · simp only [] at h
+      split at h
+      · rename_i c' he; cases h; exact drainVirtualKeys_err _ _ _ he
+      · split at h
+        · rename_i c' he; exact absurd he (drainReleases_no_err _ _ _ _ _)
+        · split at h
+          · rename_i c' he; exact absurd he (processPresses_no_err _ _ _)
+          · cases h
 
 end KVerif.C09
